@@ -267,6 +267,11 @@ fn main() {
             same("Box<Path> vs PathBuf", &PathBuf::from(t).into_boxed_path(), &PathBuf::from(t), t);
             if !t.contains('\0') { let c = CString::new(t).unwrap(); let r: &CStr = c.as_c_str(); same("CString vs CStr", &c, r, t); }
         }
+        // neighbouring paths whose COMPONENTS concatenate to the same list but split differently; an empty path at different places
+        all_distinct("Vec<PathBuf>: the split between neighbouring paths", &[
+            vec![PathBuf::from("a/b"), PathBuf::from("c")], vec![PathBuf::from("a"), PathBuf::from("b/c")], vec![PathBuf::from("a/b/c")], vec![PathBuf::from("a"), PathBuf::from("b"), PathBuf::from("c")],
+            vec![PathBuf::from(""), PathBuf::from("a/b/c")], vec![PathBuf::from("a/b/c"), PathBuf::from("")], vec![PathBuf::from("a/b"), PathBuf::from(""), PathBuf::from("c")]]);
+        all_distinct("(PathBuf, PathBuf): the split between neighbouring paths", &[(PathBuf::from("x/y"), PathBuf::from("z")), (PathBuf::from("x"), PathBuf::from("y/z")), (PathBuf::from(""), PathBuf::from("x/y/z")), (PathBuf::from("x/y/z"), PathBuf::from(""))]);
         all_distinct("PathBuf values", &[PathBuf::from(""), PathBuf::from("a"), PathBuf::from("a/b"), PathBuf::from("a/b/"), PathBuf::from("/a/b"), PathBuf::from("ab")]);
         all_distinct("(PathBuf,PathBuf) boundary", &[(PathBuf::from("ab"), PathBuf::from("c")), (PathBuf::from("a"), PathBuf::from("bc")), (PathBuf::from("abc"), PathBuf::from("")), (PathBuf::from(""), PathBuf::from("abc"))]);
         all_distinct("(OsString,OsString) boundary", &[(OsString::from("ab"), OsString::from("c")), (OsString::from("a"), OsString::from("bc")), (OsString::from(""), OsString::from("abc"))]);
